@@ -917,6 +917,31 @@ theorem lookup_slots (f : String × List Ty × Ty → GVal) : ∀ (sigs : List (
       rw [lookup_cons_ne _ _ hne]
       exact lookup_slots f rest s hnd.2 hs'
 
+/-- the `data` field of a trait object: for a numeric literal the conversion to its own type, which — the literal being in
+    the range of its type — evaluates to the literal's value; else the operand itself -/
+theorem dynData_ev {env : Env} {η : Hp} {F : GFile} {gρ : GEnv} {gw : GWorld} {e : Imm} {v : Val} {gd : GVal} (hvl : VecLink F)
+    (hev : EvS F gρ gw (compileImm env e) (.ok gd gw)) (ht : HasTy env η v e.ty) (hg : VRel env η v e.ty gd)
+    (hgo : ∀ n, n ∈ dynDataCallee e → lookupG gρ n = none) : EvS F gρ gw (dynDataExpr env e) (.ok gd gw) := by
+  cases e with
+  | var x ty => exact hev
+  | tag idx ty => exact hev
+  | prim p ty =>
+    simp only [dynDataExpr]
+    cases hc : convName ty with
+    | none => exact hev
+    | some n =>
+      simp only
+      simp only [Imm.ty] at ht hg
+      rcases convName_spec hc with ⟨b, s, rfl, hn, hmem⟩ | ⟨b, rfl⟩
+      · cases v <;> simp only [HasTy] at ht <;> try exact ht.elim
+        rename_i b' s' x
+        obtain ⟨rfl, rfl, hr⟩ := ht
+        simp only [VRel] at hg; subst hg
+        have hcall := call_conv (F := F) (w := gw) (b0 := b') (s0 := s') (x := x) hmem hn (hvl.conv n hmem)
+        rw [hr] at hcall
+        exact ev_call (ev_var_none (hgo n (by simp [dynDataCallee, hc]))) (evl_cons hev evl_nil) hcall
+      · cases v <;> simp [HasTy] at ht
+
 theorem todyn_sim {env : Env} {file : AFile} {G : List String} {P : Prog} {F : GFile} (hl : Link env file G P F) (n : Nat)
     (η : Hp) (Γ : Ctx) (ρ : Sem.Env) (w : World) (gρ : GEnv) (gw : GWorld) (Bad : List String)
     (tr : String) (forTy : Ty) (e : Imm) (ty : Ty)
@@ -946,10 +971,11 @@ theorem todyn_sim {env : Env} {file : AFile} {G : List String} {P : Prog} {F : G
   · rw [h1]; simp only
     obtain ⟨hle, hw'⟩ := hw.allocImm (vtableVal env tr forTy)
     have hfields : EvFS F gρ gw
-        [.mk "data" (compileImm env e),
+        [.mk "data" (dynDataExpr env e),
          .mk "vtable" (.call (vtablePtrTy tr) (.var (dynVtableCtorName tr forTy) (.func [] (vtablePtrTy tr))) [])]
         (.ok [("data", gd), ("vtable", .ptr gw.heap.size)] { gw with heap := gw.heap.push (vtableVal env tr forTy) }) :=
-      evf_cons (hg gw) (evf_cons (ev_call (ev_var_none hgo) evl_nil (dyn_ctor_call hdl gw)) evf_nil)
+      evf_cons (dynData_ev hl.vecGo (hg gw) ((scalarEq_eq hety).symm ▸ h4) ((scalarEq_eq hety).symm ▸ h3)
+        (fun nm hnm => lookup_none_of_not_key (fun hk => hgood _ hk (hcal nm (by simp [calleesC, hnm]))))) (evf_cons (ev_call (ev_var_none hgo) evl_nil (dyn_ctor_call hdl gw)) evf_nil)
     have hgoE := ev_slit_name (name := dynStructName tr) hfields
     rw [slit_dyn hdl] at hgoE
     refine ⟨_, hle, _, _, hgoE, ?_, ?_, hw', fun h => by cases h⟩
